@@ -145,8 +145,8 @@ def _support(method, rep, isdop):
         return True, True             # a presolved Hamiltonian always selects the diagonalisation route
     if rep == "linop":
         return method == "integrate", True
-    if method == "expm" and isdop:
-        return False, True            # single-shot exponential is one-sided: must be rejected (finding 5)
+    # (method 'expm' with a density operator used to evolve one-sidedly -- finding 5; it now makes a second, adjoint
+    # pass, so the combination is supported and must give U rho U^dagger)
     return True, True
 
 
